@@ -64,7 +64,7 @@ func NewEnv() (*Env, error) {
 	if err != nil {
 		return nil, err
 	}
-	e := &Env{Scratch: scratch, Workers: 4}
+	e := &Env{Scratch: scratch, Workers: 8}
 	if self, err := os.Executable(); err == nil {
 		e.Self = self
 	}
@@ -196,7 +196,9 @@ func (e *Env) RunLox(cwd string, timeout time.Duration, args ...string) (exit in
 	defer cancel()
 	cmd := exec.CommandContext(ctx, e.Lox, args...)
 	cmd.Dir = cwd
-	cmd.Env = goEnv(e.GoCache)
+	// GOMAXPROCS=2: measured on this VM, lox (and the `go list` it spawns)
+	// costs half the wall time and a fifth of the CPU time of the default.
+	cmd.Env = append(goEnv(e.GoCache), "GOMAXPROCS=2")
 	var so, se bytes.Buffer
 	cmd.Stdout, cmd.Stderr = &so, &se
 	err := cmd.Run()
